@@ -254,8 +254,51 @@ def _stress_chunk(args):
     return stress(*args)
 
 
+def _cold(case):
+    """one observation in a fresh interpreter (see c19_cold.py)"""
+    import json
+    import os
+    import subprocess
+    here = os.path.dirname(os.path.abspath(__file__))
+    env = dict(os.environ)
+    env["HL7APY_VERIF"] = "1"
+    try:
+        p = subprocess.run([sys.executable, os.path.join(here, "c19_cold.py"), json.dumps(case)], capture_output=True, text=True,
+                           timeout=120, env=env)
+        for ln in p.stdout.splitlines():
+            if ln.startswith("COLD-EVENTS "):
+                return json.loads(ln[len("COLD-EVENTS "):])
+        return [{"harness_error": "cold run printed no events: %s" % (p.stderr[-300:],)}]
+    except Exception as ex:
+        return [{"harness_error": "cold run: %r" % ex}]
+
+
+def cold_cases(rnd, quick):
+    cases = []
+    vs = T.versions()
+    # first calls of a version forced through the yield points: A runs p steps, B runs completely, A finishes - and mirrored
+    dts = [("DT", "20200102"), ("TM", "1201"), ("NM", "12.5"), ("SI", "7"), ("DTM", "202001021201"), ("ST", "abc")]
+    for v in (rnd.sample(vs, 3) if quick else vs):
+        for _ in range(1 if quick else 4):
+            a, b = rnd.sample(dts, 2)
+            la, lb = rnd.choice([1, 2]), rnd.choice([1, 2])
+            for p_ in range(1, 5):
+                cases.append({"mode": "sched", "jobs": [[a[0], a[1], v, la], [b[0], b[1], v, lb]],
+                              "schedule": [0] * p_ + [1] * 5 + [0] * (5 - p_)})
+                cases.append({"mode": "sched", "jobs": [[a[0], a[1], v, la], [b[0], b[1], v, lb]],
+                              "schedule": [1] * p_ + [0] * 5 + [1] * (5 - p_)})
+    # first calls of a version at the same time, no hooks: the second thread arrives while the first loads the version
+    kinds = [lambda v: ["segment", v], lambda v: ["parse", v], lambda v: ["build", v], lambda v: ["factory", "NM", "12.5", v, 1],
+             lambda v: ["factory", "DT", "2020", v, 2]]
+    for v in (rnd.sample(vs, 3) if quick else vs):
+        for d in ((0, 2, 10, 40, 120) if quick else (0, 1, 2, 5, 10, 20, 40, 80, 120, 200, 300)):
+            ka, kb = rnd.choice(kinds), rnd.choice(kinds)
+            cases.append({"mode": "race", "a": ka(v), "b": kb(v), "delay_ms": d})
+    return cases
+
+
 def signature(e, clause):
-    return {"clause": clause, "kind": e["k"], "job": "/".join(e.get("job", [])) or e.get("at"), "mode": "stress" if e["sched"].startswith("stress") else "forced"}
+    return {"clause": clause, "kind": e["k"], "job": "/".join(e.get("job", [])) or e.get("at"), "mode": "stress" if e["sched"].startswith("stress") else e.get("mode") or "forced"}
 
 
 def run(ctx):
@@ -304,6 +347,17 @@ def run(ctx):
                 ctx.machinery_failure("scheduler: " + e["harness_error"])
             else:
                 events.append(e)
+    # first use: one fresh interpreter per observation
+    cc = cold_cases(rnd, quick)
+    ncold = 0
+    for part in pmap(_cold, cc):
+        for e in part:
+            if "harness_error" in e:
+                ctx.machinery_failure("cold run: " + e["harness_error"])
+            else:
+                events.append(e)
+                ncold += 1
+    ctx.extra["cold_process_observations"] = ncold
     # T: stress
     for part in pmap(_stress_chunk, [(ctx.seed * 50 + k, 8, 1 if quick else 6) for k in range(8 if quick else 16)]):
         events.extend(part)
@@ -321,7 +375,8 @@ def run(ctx):
         ctx.sample({k: e[k] for k in ("job", "result", "alone", "sched")})
     ctx.rule = ("every maximal path of the 2-thread model graph (all interleavings of the five steps of two "
                 "datatype_factory calls) x job pairs, simulated 3-thread behaviours, forced on real threads through the "
-                "yield points; plus 8-thread stress rounds over a corpus of parse/build/encode/validate/factory calls of "
+                "yield points; first use in fresh interpreters (forced schedules of the first two calls of a version; two "
+                "threads first-using a version at the same time with delays 0..300 ms); plus 8-thread stress rounds over a corpus of parse/build/encode/validate/factory calls of "
                 "all versions; distinct by (kind, schedule, thread, job)")
     ctx.assumptions += ["a forced switch can only happen at the four yield points of datatype_factory; everything "
                         "else is covered by preemptive stress only",
